@@ -107,7 +107,7 @@ func watchRunCases(col *Collector, tier string, rng *rand.Rand) {
 	if tier == "thorough" {
 		n = 6
 	}
-	results := make([]Case, n+2)
+	results := make([]Case, n+3)
 	seeds := make([]int64, n)
 	for i := range seeds {
 		seeds[i] = rng.Int63() + int64(i)
@@ -127,8 +127,10 @@ func watchRunCases(col *Collector, tier string, rng *rand.Rand) {
 		}
 		return c2
 	}
-	parallel(n+2, 3, func(i int) {
+	parallel(n+3, 4, func(i int) {
 		switch {
+		case i == n+2:
+			results[i] = twice(watchManyUnsubscribedCase)
 		case i == n:
 			results[i] = twice(watchTwoCase)
 		case i == n+1:
@@ -416,6 +418,90 @@ watchers:
 		cs.Fail, cs.Sig = "watcher crashed: "+firstPanicLine(stderr.String()), "c20-panic"
 	case strings.Join(gs, "|") != strings.Join(ws, "|"):
 		cs.Fail, cs.Sig = fmt.Sprintf("task runs %v, the events were %v (EventName / EventPath must describe the event that caused the run)", got, want), "c20-event-description"
+	}
+	return cs
+}
+
+// a long history of events whose type is NOT subscribed (twelve chmod, the watcher listens to write only), then
+// subscribed ones: none of the former runs the task, each of the latter does - "for as long as it runs"
+func watchManyUnsubscribedCase() Case {
+	root := newScratchDir("c20m")
+	defer os.RemoveAll(root)
+	os.MkdirAll(filepath.Join(root, "src"), 0755)
+	file := filepath.Join(root, "src", "a.go")
+	os.WriteFile(file, []byte("x"), 0644)
+	file2 := filepath.Join(root, "src", "b.go")
+	os.WriteFile(file2, []byte("x"), 0644)
+	trace := filepath.Join(root, "trace")
+	cfg := fmt.Sprintf("tasks:\n  onchange:\n    command:\n      - 'echo \"RAN $EventName $EventPath\" >> %s'\nwatchers:\n  w:\n    watch: [\"%s/src/*.go\"]\n    events: [write]\n    task: onchange\n", trace, root)
+	os.WriteFile(filepath.Join(root, "tasks.yaml"), []byte(cfg), 0644)
+	cs := Case{Tags: []string{"inotify", "unsubscribed-history"}, NonTrivial: true, Replay: "watch src/*.go, events write; operations: 6 x (chmod:watched, chmod:watched2), write:watched, write:watched"}
+	cmd := exec.Command(taskctlBin(), "-c", filepath.Join(root, "tasks.yaml"), "watch", "w")
+	cmd.Dir = root
+	cmd.Env = append([]string{"PATH=" + os.Getenv("PATH"), "HOME=" + root}, covEnv()...)
+	cmd.SysProcAttr = &syscall.SysProcAttr{Setpgid: true}
+	var stderr strings.Builder
+	cmd.Stderr = &stderr
+	if err := cmd.Start(); err != nil {
+		cs.Fail, cs.Sig = err.Error(), "c20-watch-start"
+		return cs
+	}
+	defer func() {
+		syscall.Kill(-cmd.Process.Pid, syscall.SIGKILL)
+		cmd.Wait()
+	}()
+	count := func() int {
+		n := 0
+		for _, l := range readTrace(trace) {
+			if strings.Contains(l, "RAN write") {
+				n++
+			}
+		}
+		return n
+	}
+	waitFor := func(n int, d time.Duration) bool {
+		deadline := time.Now().Add(d)
+		for count() < n {
+			if time.Now().After(deadline) {
+				return false
+			}
+			time.Sleep(100 * time.Millisecond)
+		}
+		return true
+	}
+	// the start-up run carries no event name; wait until the trace file exists, then let the loop settle
+	for i := 0; i < 100; i++ {
+		if _, err := os.Stat(trace); err == nil {
+			break
+		}
+		time.Sleep(50 * time.Millisecond)
+	}
+	time.Sleep(1200 * time.Millisecond)
+	// alternately on two files: the kernel merges an event into the previous one of the queue when they are identical
+	for i := 0; i < 12; i++ {
+		os.Chmod([]string{file, file2}[i%2], 0600+os.FileMode(i/2%2)*0040)
+		time.Sleep(150 * time.Millisecond)
+	}
+	// the serve loop takes one event a second
+	time.Sleep(13 * time.Second)
+	before := count()
+	write := func() {
+		f, _ := os.OpenFile(file, os.O_APPEND|os.O_WRONLY, 0644)
+		f.WriteString("more")
+		f.Close()
+	}
+	write()
+	first := waitFor(before+1, 8*time.Second)
+	write()
+	second := waitFor(before+2, 8*time.Second)
+	cs.Impl = fmt.Sprintf("runs-for-chmod=%d first-write-ran=%v second-write-ran=%v", before, first, second)
+	switch {
+	case strings.Contains(stderr.String(), "panic:"):
+		cs.Fail, cs.Sig = "watcher crashed: "+firstPanicLine(stderr.String()), "c20-panic"
+	case before != 0:
+		cs.Fail, cs.Sig = fmt.Sprintf("%d task runs for chmod events, which are not subscribed", before), "c20-serve"
+	case !first || !second:
+		cs.Fail, cs.Sig = fmt.Sprintf("after twelve events of a type that is not subscribed, write events on the observed file ran the task: first %v, second %v", first, second), "c20-stops-serving"
 	}
 	return cs
 }
